@@ -817,5 +817,50 @@ func Generate(tier string) []*Shape {
 			}, pv1))
 		}
 	}
+	// (6) the same account drawn repeatedly under different overdraft grants: in
+	// successive sends, and inside one ordered source (one occurrence capped, as the
+	// compiler demands)
+	mode := func(g *varGen, a, m string) *Source {
+		switch m {
+		case "bounded":
+			return &Source{Kind: "acc", Acc: a, Od: "bounded", OdVar: g.next("o")}
+		case "unbounded":
+			return &Source{Kind: "acc", Acc: a, Od: "unbounded"}
+		}
+		return &Source{Kind: "acc", Acc: a}
+	}
+	modes := []string{"", "bounded", "unbounded"}
+	for _, m1 := range modes {
+		for _, m2 := range modes {
+			g := &varGen{}
+			add(newShape("", []*Stmt{
+				{Kind: "send", AmtVar: "m", Asset: "USD/2", Srcs: []*Source{mode(g, "a", m1)}, Dst: acc("x")},
+				{Kind: "send", AmtVar: "n", Asset: "USD/2", Srcs: []*Source{mode(g, "a", m2)}, Dst: acc("y")},
+			}, nil))
+			g = &varGen{}
+			capped := &Source{Kind: "max", CapVar: g.next("c"), Subs: []*Source{mode(g, "a", m1)}}
+			add(newShape("", []*Stmt{{Kind: "send", AmtVar: "m", Asset: "USD/2", Srcs: []*Source{{Kind: "seq", Subs: []*Source{capped, mode(g, "a", m2), {Kind: "acc", Acc: "c"}}}}, Dst: acc("x")}}, nil))
+			if m1 != "unbounded" && m2 != "unbounded" {
+				g = &varGen{}
+				capped = &Source{Kind: "max", CapVar: g.next("c"), Subs: []*Source{mode(g, "a", m2)}}
+				add(newShape("", []*Stmt{{Kind: "sendall", Asset: "USD/2", Srcs: []*Source{{Kind: "seq", Subs: []*Source{mode(g, "a", m1), capped}}}, Dst: acc("x")}}, nil))
+				// emptied, credited in between, emptied again
+				g = &varGen{}
+				add(newShape("", []*Stmt{
+					{Kind: "sendall", Asset: "USD/2", Srcs: []*Source{mode(g, "a", m1)}, Dst: acc("x")},
+					{Kind: "send", AmtVar: "m", Asset: "USD/2", Srcs: []*Source{{Kind: "world"}}, Dst: acc("a")},
+					{Kind: "sendall", Asset: "USD/2", Srcs: []*Source{mode(g, "a", m2)}, Dst: acc("y")},
+				}, nil))
+			}
+		}
+	}
+	for _, ms := range [][3]string{{"unbounded", "unbounded", "bounded"}, {"bounded", "unbounded", "bounded"}, {"unbounded", "", "bounded"}, {"unbounded", "bounded", ""}} {
+		g := &varGen{}
+		add(newShape("", []*Stmt{
+			{Kind: "send", AmtVar: "m", Asset: "USD/2", Srcs: []*Source{mode(g, "a", ms[0])}, Dst: acc("x")},
+			{Kind: "send", AmtVar: "n", Asset: "USD/2", Srcs: []*Source{mode(g, "a", ms[1])}, Dst: acc("y")},
+			{Kind: "send", AmtVar: "p", Asset: "USD/2", Srcs: []*Source{mode(g, "a", ms[2])}, Dst: acc("z")},
+		}, nil))
+	}
 	return shapes
 }
